@@ -1248,4 +1248,210 @@ theorem c08_shape_router_Router_receiveServerIdentity :
      "return:nil,xerrors.New(\"\")", "else", "if:!r.UnauthOk", "return:dst,nil"] := rfl
 
 
+/-! ### the bytes of a key name (`Model/C08Name.lean`): `pubToCN` / `pubFromCN` down to the characters -/
+namespace NameBytes
+
+theorem fromHexChar_hexDigit (n : Nat) (h : n < 16) : fromHexChar (hexDigit n) = some n := by
+  have : n = 0 ∨ n = 1 ∨ n = 2 ∨ n = 3 ∨ n = 4 ∨ n = 5 ∨ n = 6 ∨ n = 7 ∨ n = 8 ∨ n = 9 ∨ n = 10 ∨
+      n = 11 ∨ n = 12 ∨ n = 13 ∨ n = 14 ∨ n = 15 := by omega
+  rcases this with rfl | rfl | rfl | rfl | rfl | rfl | rfl | rfl | rfl | rfl | rfl | rfl | rfl | rfl | rfl | rfl <;> rfl
+
+theorem fromHexChar_upper_hexDigit (n : Nat) (h : n < 16) : fromHexChar (upper (hexDigit n)) = some n := by
+  have : n = 0 ∨ n = 1 ∨ n = 2 ∨ n = 3 ∨ n = 4 ∨ n = 5 ∨ n = 6 ∨ n = 7 ∨ n = 8 ∨ n = 9 ∨ n = 10 ∨
+      n = 11 ∨ n = 12 ∨ n = 13 ∨ n = 14 ∨ n = 15 := by omega
+  rcases this with rfl | rfl | rfl | rfl | rfl | rfl | rfl | rfl | rfl | rfl | rfl | rfl | rfl | rfl | rfl | rfl <;> rfl
+
+/-- a hex digit is never the type byte `'Z'`, in either case -/
+theorem hexDigit_ne_typeByte (n : Nat) : hexDigit n ≠ typeByte ∨ 16 ≤ n := by
+  by_cases h : n < 16
+  · left
+    unfold hexDigit typeByte
+    split <;> omega
+  · right; omega
+
+theorem hexEncode_length (bs : List Nat) : (hexEncode bs).length = 2 * bs.length := by
+  induction bs with
+  | nil => rfl
+  | cons b bs ih => simp [hexEncode, ih]; omega
+
+theorem hexEncode_append (a b : List Nat) : hexEncode (a ++ b) = hexEncode a ++ hexEncode b := by
+  induction a with
+  | nil => rfl
+  | cons x a ih => simp [hexEncode, ih]
+
+/-- **`hex.DecodeString ∘ hex.EncodeToString` is the identity**, for every byte string -/
+theorem c08_hex_roundtrip (bs : List Nat) (hb : ∀ b ∈ bs, b < 256) : hexDecode (hexEncode bs) = some bs := by
+  induction bs with
+  | nil => rfl
+  | cons b bs ih =>
+    have hb0 : b < 256 := hb b (by simp)
+    have ih' := ih (fun x hx => hb x (by simp [hx]))
+    simp only [hexEncode, hexDecode, fromHexChar_hexDigit (b / 16) (by omega),
+      fromHexChar_hexDigit (b % 16) (by omega), ih']
+    congr 2
+    omega
+
+/-- … and the decoder reads upper-case digits as well: another spelling of the same bytes -/
+theorem hex_upper_roundtrip (bs : List Nat) (hb : ∀ b ∈ bs, b < 256) :
+    hexDecode ((hexEncode bs).map upper) = some bs := by
+  induction bs with
+  | nil => rfl
+  | cons b bs ih =>
+    have hb0 : b < 256 := hb b (by simp)
+    have ih' := ih (fun x hx => hb x (by simp [hx]))
+    simp only [hexEncode, List.map_cons, hexDecode, fromHexChar_upper_hexDigit (b / 16) (by omega),
+      fromHexChar_upper_hexDigit (b % 16) (by omega), ih']
+    congr 2
+    omega
+
+/-- **key naming round trip, on the bytes**: for every lawful group and every point,
+`pubFromCN (pubToCN p) = p` — the name `certMaker` writes into the certificate decodes to the key it
+was made from.  (Falsified by: another type byte on one side only, a different alphabet or case
+handling in one direction, `cn[2:]` instead of `cn[1:]`, reading fewer bytes than `MarshalSize`.) -/
+theorem c08_name_bytes_roundtrip {P : Type} (g : Group P) (hg : g.Lawful) (p : P) :
+    pubFromCN g (pubToCN g p) = .ok p := by
+  simp only [pubToCN, pubFromCN, if_true, c08_hex_roundtrip _ (hg.marshal_byte p), hg.marshal_len p,
+    Nat.lt_irrefl, if_false]
+  rw [List.take_of_length_le (by rw [hg.marshal_len p]; exact Nat.le_refl _), hg.roundtrip p]
+
+/-- names of different keys differ -/
+theorem c08_name_bytes_injective {P : Type} (g : Group P) (hg : g.Lawful) (p q : P)
+    (h : pubToCN g p = pubToCN g q) : p = q := by
+  have hp := c08_name_bytes_roundtrip g hg p
+  rw [h, c08_name_bytes_roundtrip g hg q] at hp
+  cases hp; rfl
+
+/-- **bytes after the key are not looked at** (`UnmarshalFrom` reads `MarshalSize` bytes): every name
+`"Z" ++ hex(marshal p ++ tail)` decodes to `p` — the spelling `Name.alt p 1` of the symbolic model.
+The verifier therefore must not compare *names* where it means *keys*. -/
+theorem c08_name_trailing_bytes {P : Type} (g : Group P) (hg : g.Lawful) (p : P) (tail : List Nat)
+    (ht : ∀ b ∈ tail, b < 256) :
+    pubFromCN g (typeByte :: hexEncode (g.marshal p ++ tail)) = .ok p := by
+  have hb : ∀ b ∈ g.marshal p ++ tail, b < 256 := by
+    intro b hb
+    rcases List.mem_append.mp hb with h | h
+    · exact hg.marshal_byte p b h
+    · exact ht b h
+  simp only [pubFromCN, if_true, c08_hex_roundtrip _ hb]
+  rw [if_neg (by simp [hg.marshal_len p])]
+  rw [List.take_append_of_le_length (by rw [hg.marshal_len p]; exact Nat.le_refl _),
+    List.take_of_length_le (by rw [hg.marshal_len p]; exact Nat.le_refl _), hg.roundtrip p]
+
+/-- **upper-case digits name the same key** (`hex.DecodeString` reads both cases): the spelling
+`Name.alt p 0` of the symbolic model -/
+theorem c08_name_upper_case {P : Type} (g : Group P) (hg : g.Lawful) (p : P) :
+    pubFromCN g (typeByte :: (hexEncode (g.marshal p)).map upper) = .ok p := by
+  simp only [pubFromCN, if_true, hex_upper_roundtrip _ (hg.marshal_byte p), hg.marshal_len p,
+    Nat.lt_irrefl, if_false]
+  rw [List.take_of_length_le (by rw [hg.marshal_len p]; exact Nat.le_refl _), hg.roundtrip p]
+
+theorem hexEncode_head_ne_typeByte (bs : List Nat) (hb : ∀ b ∈ bs, b < 256) (c : Nat) (r : List Nat)
+    (h : hexEncode bs = c :: r) : c ≠ typeByte := by
+  cases bs with
+  | nil => simp [hexEncode] at h
+  | cons b bs =>
+    simp only [hexEncode, List.cons.injEq] at h
+    have hb0 : b < 256 := hb b (by simp)
+    rcases hexDigit_ne_typeByte (b / 16) with h' | h'
+    · rw [← h.1]; exact h'
+    · omega
+
+/-- **old-style names** (before dedis/onet#485: the common name is `pub.String()`): when a suite prints
+a point as the hex form of its marshalled bytes (Ed25519, the NIST curves), the old name decodes to the
+key too, and it can never be taken for a new-style name — a hex string does not begin with `'Z'`.
+The two styles are told apart by the first byte alone. -/
+theorem c08_name_old_style {P : Type} (g : Group P) (hg : g.Lawful) (p : P) (hlen : 0 < g.len)
+    (hs : g.str p = hexEncode (g.marshal p)) : pubFromCN g (g.str p) = .ok p := by
+  rw [hs]
+  have hl : (hexEncode (g.marshal p)).length = 2 * g.len := by rw [hexEncode_length, hg.marshal_len p]
+  cases hc : hexEncode (g.marshal p) with
+  | nil => rw [hc] at hl; simp at hl; omega
+  | cons c r =>
+    have hne : c ≠ typeByte := hexEncode_head_ne_typeByte _ (hg.marshal_byte p) c r hc
+    simp only [pubFromCN, hne, if_false]
+    rw [← hc, if_neg (by omega), List.take_of_length_le (by omega), c08_hex_roundtrip _ (hg.marshal_byte p)]
+    simp only [hg.roundtrip p]
+
+/-- `pubFromCN` never reads a new-style name through the old-style branch, whatever the suite: the
+canonical name always takes the `'Z'` branch, so a suite whose `String()` is no hex string (bn256)
+loses nothing -/
+theorem c08_name_new_style_branch {P : Type} (g : Group P) (rest : List Nat) :
+    pubFromCN g (typeByte :: rest) =
+      match hexDecode rest with
+      | none => .error .hex
+      | some buf =>
+        if buf.length < g.len then .error .short
+        else match g.unmarshal (buf.take g.len) with
+          | none => .error .point
+          | some p => .ok p := by
+  rfl
+
+/-- what a successful `pubFromCN` has established, for **every** string: the name has one of the two
+forms and the key is the decoding of `MarshalSize` bytes spelled in it -/
+theorem c08_name_decoded_from {P : Type} (g : Group P) (cn : List Nat) (p : P) (h : pubFromCN g cn = .ok p) :
+    (∃ rest buf, cn = typeByte :: rest ∧ hexDecode rest = some buf ∧ g.len ≤ buf.length ∧
+        g.unmarshal (buf.take g.len) = some p) ∨
+    (∃ buf, cn.head? ≠ some typeByte ∧ 2 * g.len ≤ cn.length ∧ hexDecode (cn.take (2 * g.len)) = some buf ∧
+        g.unmarshal buf = some p) := by
+  cases cn with
+  | nil => simp [pubFromCN] at h
+  | cons c rest =>
+    by_cases hc : c = typeByte
+    · subst hc
+      left
+      rw [c08_name_new_style_branch] at h
+      cases hd : hexDecode rest with
+      | none => simp [hd] at h
+      | some buf =>
+        simp only [hd] at h
+        by_cases hl : buf.length < g.len
+        · simp [hl] at h
+        · simp only [hl, if_false] at h
+          cases hu : g.unmarshal (buf.take g.len) with
+          | none => simp [hu] at h
+          | some q =>
+            simp only [hu] at h
+            cases h
+            exact ⟨rest, buf, rfl, hd, by omega, hu⟩
+    · right
+      simp only [pubFromCN, hc, if_false] at h
+      simp only [List.length_cons] at h
+      by_cases hl : rest.length + 1 < 2 * g.len
+      · simp [hl] at h
+      · simp only [hl, if_false] at h
+        cases hd : hexDecode ((c :: rest).take (2 * g.len)) with
+        | none => simp [hd] at h
+        | some buf =>
+          simp only [hd] at h
+          cases hu : g.unmarshal buf with
+          | none => simp [hu] at h
+          | some q =>
+            simp only [hu] at h
+            cases h
+            exact ⟨buf, by simp [hc], by simp; omega, rfl, hu⟩
+
+/-- non-vacuity: the driver's group with a two-byte key is lawful on its table entries; the canonical,
+the upper-case and the trailing-bytes spelling of the key `ab 0f` decode to it, and they are three
+different strings -/
+example :
+    let g := Text.tableGroup 2 [([171, 15], true)]
+    pubToCN g [171, 15] = [90, 97, 98, 48, 102] ∧
+    pubFromCN g [90, 97, 98, 48, 102] = .ok [171, 15] ∧
+    pubFromCN g [90, 65, 66, 48, 70] = .ok [171, 15] ∧
+    pubFromCN g [90, 97, 98, 48, 102, 55, 55] = .ok [171, 15] ∧
+    pubFromCN g [97, 98, 48, 102] = .ok [171, 15] ∧          -- old style
+    pubFromCN g [] = .error .empty ∧
+    pubFromCN g [90] = .error .short ∧
+    pubFromCN g [90, 97] = .error .hex ∧
+    pubFromCN g [90, 97, 98, 48, 103] = .error .hex ∧
+    pubFromCN g [90, 97, 98, 48, 48] = .error .point ∧
+    pubFromCN g [97, 98, 48] = .error .short := by
+  intro g; exact ⟨rfl, rfl, rfl, rfl, rfl, rfl, rfl, rfl, rfl, rfl, rfl⟩
+
+/-- negation witnesses: a decoder that skipped two bytes (`cn[2:]`) or that read the type byte as a digit
+would not invert `pubToCN` -/
+example : hexDecode ([97, 98, 48, 102] : List Nat).tail ≠ some [171, 15] := by decide
+example : hexDecode [90, 97, 98, 48, 102] = none := by decide
+
+end NameBytes
 end C08
